@@ -50,6 +50,15 @@ def run_entry(ctx, h, tag, path, budget_ms=2000, bytes_mod=10):
 def run(ctx):
     h = ctx.build(features=("preserve_order",))
     ins = parsecheck.inputs(ctx, h, {"corpus", "mutants", "gen", "doc"})
+    # nesting patterns around the recursion limit (Depth.tla), instantiated at the measured limit
+    from . import c05
+    r = ctx.tlc("Depth", c05.CFG % ("additive", "INVARIANT Bounded\nINVARIANT Emit"), tag="depth-additive", workers=4)
+    pats = [p for i, p in enumerate(r.json) if len(p["layers"]) < 2 or not ctx.quick or i % 3 == ctx.seed % 3]
+    pp = ctx.path("patterns.ndjson")
+    core.write_ndjson(pp, pats)
+    dp = ctx.path("depth-texts.ndjson")
+    ctx.harness(h, ["depth-render", "--in", pp, "--out", dp])
+    ins.append(("depth-patterns", dp))
     calls = 0
     for tag, path in ins:
         evp, crashes = run_entry(ctx, h, tag, path, bytes_mod=10 if ctx.quick else 3)
